@@ -4,12 +4,13 @@ from .. import nodegen
 from ._nodecommon import *
 
 ID = "C14"
-LEAN_MODULES = ["VpnCloud.Proofs.C14", "VpnCloud.Proofs.C01More", "VpnCloud.Proofs.GuardsUsed"]
+LEAN_MODULES = ["VpnCloud.Proofs.C14", "VpnCloud.Proofs.C01More", "VpnCloud.Proofs.GuardsUsed", "VpnCloud.Proofs.C14Exchange"]
 THEOREMS = ["VpnCloud.Proofs.C14." + n for n in ("self_detect", "mesh_halving", "mesh_closure")] + [
     "VpnCloud.Proofs.C01More." + n for n in ("self_handshake_never_adds_peer", "self_handshake_closes_attempt", "pendLive_reach", "self_handshake_in_history",
         "own_addresses_adopted_not_dialled", "own_entries_adopted", "dialled_only_foreign", "connect_skips_own", "connectSock_skips_own",
         "own_never_dialled_net", "own_never_dialled_tick", "own_never_dialled_connect", "own_never_dialled_iface", "own_never_dialled_needs_sender")]
 THEOREMS = THEOREMS + ["VpnCloud.Proofs.GuardsUsed." + n for n in ('ownResetDue_boundary',)]
+THEOREMS = THEOREMS + ["VpnCloud.Proofs.C14Exchange." + n for n in ('announcement_lists_every_peer', 'announcement_roundtrip', 'tick_announcement_lists_every_peer', 'listed_stranger_is_dialled', 'listed_known_not_dialled_entry', 'listed_known_not_dialled', 'all_known_nothing_dialled', 'exchange_realises_step', 'dialled_handshake_completes', 'exchange_then_handshake', 'bounded_rounds', 'bounded_rounds_stable', 'bounded_rounds_nodes', 'noInterference_needed')]
 RULE = ("suite node: all connected labelled graphs on 2-4 nodes (quick: all on 2-3, sampled on 4; thorough: also 5 and sampled 6-8) as connect instructions with a dialling orientation per edge, NAT on/off; "
         "self-dial scenarios in which a node's own handshake datagrams return to it from differing source addresses, alone and inside a mesh; full mesh and never-self-peer are checked; "
         "distinct non-trivial = distinct (op, #datagrams out, #interface writes, #peers, #pending, mutation kind)")
